@@ -306,6 +306,10 @@ fn remove_old_db_files() {
         fs::remove_file(file_path).unwrap();
     });
 }
+#[cfg(nundb_verif)]
+pub fn verif_remove_old_db_files() {
+    remove_old_db_files()
+}
 // calls storage_data_disk each $SNAPSHOT_TIME seconds
 pub fn declutter_scheduler(timer: timer::Timer, dbs: Arc<Databases>) {
     log::info!(
